@@ -88,6 +88,9 @@ class _Guard:
                     while m.idle_ticks == t and m.is_alive():
                         time.sleep(0.002)
                 ctypes.pythonapi.PyThreadState_SetAsyncExc(ctypes.c_ulong(m.target), None)   # drop a pending one
+                if typ is not None and issubclass(typ, core.Watchdog) and val is not None \
+                        and m.owner is not None and m.owner[0] == self.gen:
+                    val.hang_owner = m.owner[1]      # (file, function) of the loop that was spinning
                 return False
             except core.Watchdog:
                 continue
@@ -105,6 +108,7 @@ class _Monitor(threading.Thread):
         self.state = None          # None (disarmed) or (generation, deadline, guarding frame)
         self.gen = 0
         self.idle_ticks = 0        # incremented whenever the monitor observes the disarmed state
+        self.owner = None          # (generation, (file, function) | None) of the last interrupted hang
         self.target = threading.main_thread().ident
         self.pid = os.getpid()
 
@@ -119,8 +123,37 @@ class _Monitor(threading.Thread):
             child, f = f, f.f_back
         return False
 
+    def stack_below(self, guard):
+        """Frames of the main thread from the guarded body's first call down to the innermost (or None)."""
+        f = sys._current_frames().get(self.target)
+        chain = []
+        while f is not None:
+            if f is guard:
+                chain.reverse()
+                return chain
+            chain.append(f)
+            f = f.f_back
+        return None
+
+    @staticmethod
+    def spinning(first, second):
+        """Two snapshots taken >= 30 ms apart share exactly the invocations that lived that long; the deepest
+        shared ioflo frame whose code holds a loop is the loop that does not end (its callees come and go).
+        This names a hang the same way wherever inside the loop body the interrupt lands."""
+        root = os.path.join(core.REPO, "ioflo") + os.sep
+        best = None
+        for a, b in zip(first, second):
+            if a is not b:
+                break
+            code = a.f_code
+            if code.co_filename.startswith(root) and os.path.basename(code.co_filename) not in UTILITY_FILES \
+                    and _has_loop(code):
+                best = (os.path.basename(code.co_filename), code.co_name)
+        return best
+
     def run(self):
         last_gen, next_fire = None, 0.0
+        first, first_at = None, 0.0
         inject = ctypes.pythonapi.PyThreadState_SetAsyncExc
         target = ctypes.c_ulong(self.target)
         exc = ctypes.py_object(core.Watchdog)
@@ -129,10 +162,25 @@ class _Monitor(threading.Thread):
             st = self.state
             if st is None:
                 self.idle_ticks += 1
+                first = None
                 continue
             if st[0] != last_gen:
                 last_gen, next_fire = st[0], st[1]
-            if time.monotonic() >= next_fire and self.body_running(st[2]) and self.state is st:
+                first = None
+            now = time.monotonic()
+            if now >= next_fire and self.body_running(st[2]) and self.state is st:
+                if first is None and (self.owner is None or self.owner[0] != st[0]):
+                    first, first_at = self.stack_below(st[2]), now      # first snapshot: look again later
+                    if first is not None:
+                        st = None
+                        continue
+                if first is not None:
+                    if now - first_at < 0.03:
+                        st = None
+                        continue
+                    second = self.stack_below(st[2])
+                    self.owner = (st[0], self.spinning(first, second or []))
+                    first = second = None
                 inject(target, exc)
                 next_fire = time.monotonic() + 0.05
             st = None
@@ -599,6 +647,9 @@ def _has_loop(code):
 def hang_owner(exc):
     """(basename, function) of the innermost ioflo frame of an interrupted build whose code contains a loop:
     a stable name for the spinning loop wherever inside its body the interrupt landed."""
+    owner = getattr(exc, "hang_owner", None)
+    if owner:
+        return owner
     root = os.path.join(core.REPO, "ioflo") + os.sep
     frames = []
     tb = exc.__traceback__ if exc is not None else None
